@@ -28,13 +28,20 @@ ASSUMPTIONS = [
     "faults are raised by the transport's write before anything is recorded (an all-or-nothing write)",
     "parked commands use distinct keys (overwrites are C07's subject)",
 ]
-DELETABLE = ("parked", "wakes", "faults")
+DELETABLE = ("parked", "wakes", "faults", "between")
 
 KEYS = ((1, 0, 0), (1, 1, 0), (1, 0, 2), (2, 0, 0), (2, 1, 0))
 REGISTRY = {
     "1": {"sleeping": True, "children": {"0": {"child_type": 3}, "1": {"child_type": 3}}},
     "2": {"sleeping": True, "children": {"0": {"child_type": 3}, "1": {"child_type": 3}}},
+    "3": {"children": {"0": {"child_type": 3, "values": {"2": "1"}}}},
 }
+# what may arrive between a failed flush and the retry (anything but a wake of nodes 1/2): one event of every kind
+BETWEEN = tuple(f"0;255;3;0;{t};x\n" for t in range(0, 34) if t != 2) + tuple(f"3;255;3;0;{t};1\n" for t in range(0, 34) if t != 2) + (
+    "0;255;3;0;14;Gateway startup complete.\n", "0;255;3;0;2;2.2.0\n", "0;255;3;0;2;2.1.0\n", "0;255;3;0;2;2.0.0\n", "0;255;0;0;18;2.2.0\n",
+    "3;0;1;0;2;0\n", "3;0;2;0;2;\n", "3;0;0;0;3;relay\n", "3;255;0;0;17;2.0\n", "1;0;1;0;2;1\n", "1;0;2;0;2;\n", "1;0;0;0;3;relay\n", "1;255;3;0;0;55\n",
+    "1;255;3;0;11;sketch\n", "9;0;1;0;2;1\n", "1;7;1;0;2;1\n", "junk\n", "255;255;3;0;3;\n", "1;255;4;0;0;00\n",
+)
 
 
 def budgets(tier: str) -> dict:
@@ -54,6 +61,7 @@ def strategy(tier: str):
             "faults": st.lists(st.integers(0, 7), max_size=4, unique=True).map(sorted),
             "fault_class": st.sampled_from(("failed", "failed", "base", "read")),
             "reconnect": st.booleans(),
+            "between": st.one_of(st.just([]), st.lists(st.sampled_from(BETWEEN), min_size=1, max_size=2)),
         }
     )
 
@@ -67,6 +75,13 @@ def enumerate_cases(tier: str):
         for parked in (1, 2) if tier == "quick" else (1, 2, 3):
             for senders in ([[0, True]], [[1, True]], [[0, True], [0, True]], [[3, True]]):
                 yield {"kind": "race", "config": {"version": version, "parked": parked, "other_parked": 0, "senders": senders, "faults": 1}}
+    # a failed flush, then one event of every kind, then the retry: what was not written is still owed
+    for version in ("2.0", "2.2") if tier == "quick" else ("2.0", "2.1", "2.2"):
+        for line in BETWEEN:
+            for faults in ([0], [1]):
+                for reconnect in (False, True):
+                    yield {"version": version, "parked": [[1, 0, 0, "v0"], [1, 1, 0, "v1"], [2, 0, 0, "v2"]], "wakes": [1], "faults": faults,
+                           "fault_class": "failed", "reconnect": reconnect, "between": [line]}
     versions = ("2.0", "2.1", "2.2") if tier == "thorough" else ("2.1", "2.2")
     max_wakes = 3 if tier == "thorough" else 2
     max_attempt = 6 if tier == "thorough" else 3
@@ -214,7 +229,8 @@ def run_case(case: dict) -> Outcome:
             transport.step = idx
             pending = [l for l, owner in lines.items() if owner == node and written[l] == 0]
             before_attempts = len(transport.attempts)
-            status, value = await env.rx(gateway, f"{node};255;3;0;{wake_type};5\n")
+            wake_now = 32 if gateway.protocol.VERSION == "2.2" else 22  # (a version report may have arrived in between)
+            status, value = await env.rx(gateway, f"{node};255;3;0;{wake_now};5\n")
             step_attempts = transport.attempts[before_attempts:]
             where = f"wake #{idx} of node {node} (faults at attempts {case['faults']})"
             if status == "leak":
@@ -241,6 +257,17 @@ def run_case(case: dict) -> Outcome:
                     return fail("command-repeated", f"{where}: {line!r} was already written and is {'attempted' if was_failed else 'written'} again")
                 if not was_failed:
                     written[line] += 1
+            if idx < generated:
+                for line in case.get("between", ()):
+                    before_attempts = len(transport.attempts)
+                    status, value = await env.rx(gateway, line)
+                    if status == "leak":
+                        return fail(f"leak:{env.exc_sig(value)}", f"{where}, then {line!r}: {value!r}")
+                    for _s, wline, was_failed in transport.attempts[before_attempts:]:
+                        if wline in lines:
+                            if written[wline] >= 1:
+                                return fail("command-repeated", f"{where}, then {line!r}: {wline!r} was already written and is attempted again")
+                            return fail("released-without-wake", f"{where}, then {line!r} (not a wake): attempted {wline!r}")
             if idx >= generated:
                 quiet_rounds = quiet_rounds + 1 if not step_attempts else 0
                 if idx > generated + 40:
